@@ -639,6 +639,8 @@ def tags(case, obs):
             t.append("enc-returns-none")
         if B.has_odict(case["case"]["x"]):
             t.append("ordereddict")
+        if '"mapping"' in json.dumps(case["case"]["x"]):
+            t.append("mapping-subclass")
     if case["op"] == "ser.decode":
         if case["case"].get("extra"):
             t.append("extra-key")
